@@ -2,12 +2,21 @@
 E-DERIV over G_ref: every sentence with at most d non-default alternatives, in Module / Interactive / Expression mode,
 plus soft-keyword and identifier-alphabet post-passes; CPython 3.11 decides validity and supplies the reference tree."""
 import time, json, hashlib, ast
-from .. import common as C, gref, corpus as K, astcmp as A
+from .. import common as C, gref, corpus as K, astcmp as A, explore as X
 
 PROP = 'C01'
 CONFIGS = ('default',)
 SOFT = ['match', 'case', 'type', '_']
 IDENTS = ['é', '名', 'ﬁ', '__x', 'print', 'async_']
+
+
+# lexeme alphabet of the E-STR job: concatenated WITHOUT separators, so token adjacency (1if, a.b, 1.real, 0x1for, 'not'+'a' = nota),
+# every physical-line join and every newline form is exercised; only the texts CPython accepts are judged
+LEX = ['a', 'b', '1', '0', '1.', '.5', '1e3', '1j', '0x1f', "'s'", "f'{a}'", "b'x'", '(', ')', '[', ']', '{', '}', ',', ':', ';', '=', '.', '*', '**', '+', '-', '~',
+       '<', '==', '@', '->', ':=', '...', '+=', 'not', 'and', 'if', 'else', 'for', 'in', 'is', 'lambda', 'pass', 'del', 'return', 'def', 'class', 'match', 'case', 'type',
+       'await', 'async', 'yield', 'import', 'from', 'as', 'with', 'global', 'while', 'try', 'except', 'finally', 'raise', 'None', ' ', '\n', '\n ', '\\\n', '\r',
+       '\r\n', '\\\r', '\t', '#c', '\x0c']
+LEX_N = {'quick': 3, 'thorough': 4}
 
 
 def h64(s):
@@ -32,9 +41,149 @@ def variants(toks, tier, cost=0):
                 yield 'ident', toks[:i] + (s,) + toks[i + 1:]
 
 
+ALIAS_MARK = 'zzalias695zz'
+
+
+def _split_tparams(toks):
+    items, cur, depth = [], [], 0
+    for t in toks:
+        if t in ('(', '[', '{'):
+            depth += 1
+        elif t in (')', ']', '}'):
+            depth -= 1
+        if t == ',' and depth == 0:
+            items.append(cur)
+            cur = []
+        else:
+            cur.append(t)
+    if cur:
+        items.append(cur)
+    return items
+
+
+def _tparam_nodes(toks):
+    out = []
+    for it in _split_tparams(toks):
+        if it[0] == '*':
+            out.append(('TypeVarTuple', {'name': ('s', it[1])}))
+        elif it[0] == '**':
+            out.append(('ParamSpec', {'name': ('s', it[1])}))
+        else:
+            bound = None
+            if len(it) > 1 and it[1] == ':':
+                b = ast.parse(' '.join(it[2:]).encode('utf-8'), mode='eval')
+                bound = A.PyDump().node(b.body)
+            out.append(('TypeVar', {'name': ('s', it[0]), 'bound': bound}))
+    return out
+
+
+def erase695(text):
+    """PEP 695 is not known to CPython 3.11. Erase the type-parameter lists (and turn `type X[...] = v` into a marked assignment) so that
+    3.11 can supply the rest of the reference tree; returns (erased text, per-def/class type-parameter token lists in source order, found?)."""
+    found = False
+    defs = []      # one entry per 'def'/'class' token in source order: token list of its type parameters, or None
+    out_lines = []
+    for line in text.split('\n'):
+        indent = line[:len(line) - len(line.lstrip(' \t'))]
+        toks = line.strip(' \t').split(' ') if line.strip(' \t') else []
+        res = []
+        i = 0
+        stmt_start = True
+        while i < len(toks):
+            t = toks[i]
+            if t in ('def', 'class') and i + 2 < len(toks):
+                res += [t, toks[i + 1]]
+                if toks[i + 2] == '[':
+                    depth, j = 0, i + 2
+                    while j < len(toks):
+                        if toks[j] in ('[', '(', '{'):
+                            depth += 1
+                        elif toks[j] in (']', ')', '}'):
+                            depth -= 1
+                            if depth == 0:
+                                break
+                        j += 1
+                    defs.append(toks[i + 3:j])
+                    found = True
+                    i = j + 1
+                else:
+                    defs.append(None)
+                    i += 2
+                stmt_start = False
+                continue
+            if t == 'type' and stmt_start and i + 2 < len(toks) and toks[i + 2] in ('=', '['):
+                name = toks[i + 1]
+                tp = []
+                j = i + 2
+                if toks[j] == '[':
+                    depth = 0
+                    while j < len(toks):
+                        if toks[j] in ('[', '(', '{'):
+                            depth += 1
+                        elif toks[j] in (']', ')', '}'):
+                            depth -= 1
+                            if depth == 0:
+                                break
+                        j += 1
+                    tp = toks[i + 3:j]
+                    j += 1
+                if j < len(toks) and toks[j] == '=':
+                    res.append('%s%d_%s' % (ALIAS_MARK, len(ALIASES_TMP), name))
+                    ALIASES_TMP.append(tp)
+                    found = True
+                    i = j
+                    stmt_start = False
+                    continue
+            res.append(t)
+            stmt_start = t in (';', ':')
+            i += 1
+        out_lines.append(indent + ' '.join(res))
+    return '\n'.join(out_lines), defs, found
+
+
+ALIASES_TMP = []
+
+
+class PyDump695(A.PyDump):
+    def __init__(self, defs_by_node, aliases):
+        super().__init__(None)
+        self.defs_by_node = defs_by_node
+        self.aliases = aliases
+
+    def node(self, n):
+        if isinstance(n, ast.Assign) and len(n.targets) == 1 and isinstance(n.targets[0], ast.Name) and n.targets[0].id.startswith(ALIAS_MARK):
+            k, name = n.targets[0].id[len(ALIAS_MARK):].split('_', 1)
+            return ('TypeAlias', {'name': ('Name', {'id': ('s', name), 'ctx': ('id', 'Store')}), 'type_params': _tparam_nodes(self.aliases[int(k)]), 'value': self.node(n.value)})
+        out = super().node(n)
+        if id(n) in self.defs_by_node:
+            out[1]['type_params'] = _tparam_nodes(self.defs_by_node[id(n)])
+        return out
+
+
+def reference695(text):
+    """reference tree of a sentence that uses PEP 695 forms, or None"""
+    del ALIASES_TMP[:]
+    try:
+        erased, defs, found = erase695(text)
+        if not found:
+            return None
+        tree = ast.parse(erased.encode('utf-8'))
+        nodes = sorted((n for n in ast.walk(tree) if isinstance(n, (ast.FunctionDef, ast.AsyncFunctionDef, ast.ClassDef))), key=lambda n: (n.lineno, n.col_offset))
+        if len(nodes) != len(defs):
+            return None
+        by_node = {id(n): tp for n, tp in zip(nodes, defs) if tp}
+        return drop_empty_type_params(('Module', {'body': PyDump695(by_node, list(ALIASES_TMP)).node(tree.body)}))
+    except (SyntaxError, ValueError, IndexError):
+        return None
+
+
 def reference(text, mode):
     tree, err = K.cpython_parse(text, mode)
     if tree is None:
+        if mode == 'exec' and ('[' in text or 'type ' in text):
+            r695 = reference695(text)
+            if r695 is not None:
+                return r695, None
         return None, err
     d = A.PyDump()
     if mode == 'eval':
@@ -92,7 +241,44 @@ def modes_for(toks):
     return ('exec', 'single')
 
 
+def run_lex_shard(args):
+    _, n, shard = args
+    r = C.Result()
+    cases = []
+    for text, l in X.shard_strings(LEX, n, shard):
+        r.transitions += 1
+        # calibration: CPython's exec-mode reader appends one more newline to a text ending in CRLF (translate_newlines leaves c == 0 after a
+        # skipped LF), so 'a\\<CR><LF>' is accepted while 'a\\<LF>' is "unexpected EOF". Validity cannot depend on the newline spelling: a text
+        # is judged only when CPython gives the same verdict for it and for its LF-normalised spelling.
+        norm = text.replace('\r\n', '\n').replace('\r', '\n') if '\r' in text else text
+        for pm in ('exec', 'eval'):
+            if K.cpython_parse(text, pm)[0] is None:
+                continue
+            if norm is not text and K.cpython_parse(norm, pm)[0] is None:
+                r.info['newline-spelling-dependent CPython verdict (not judged)'] += 1
+                continue
+            cases.append((text, pm, l))
+            if pm == 'exec':
+                cases.append((text, 'single', l))
+    hashes = set()
+    for chunk in (cases[i:i + 4000] for i in range(0, len(cases), 4000)):
+        res = C.run_worker(['parse\t%s\t%s' % (m, C.hx(t)) for t, m, _ in chunk])
+        for (text, mode, l), obs in zip(chunk, res):
+            out, fail = judge(text, mode, obs)
+            r.evaluations += 1
+            r.outcomes['%s:%s' % (mode, out)] += 1
+            r.by_bound['lexemes n=%d' % l] += 1
+            hashes.add(h64(mode + '\0' + text))
+            r.validated += 1
+            if fail is not None:
+                r.fails.append(fail)
+    r.extra['_hashes'] = hashes
+    return r
+
+
 def run_shard(args):
+    if args[0] == 'lex':
+        return run_lex_shard(args)
     paths, d, tier, start = args
     r = C.Result()
     hashes = set()
@@ -127,6 +313,13 @@ def run_shard(args):
                 r.fails.append(fail)
             elif out == 'equal' and len(r.samples) < 1 and cost == d and tag == 'base':
                 r.samples.append({'mode': mode, 'text': text})
+    # H3: which productions of the compiled LR tables this shard's sentences reduce (measurement only, no verdict depends on it)
+    covtexts = sorted({t for t, m, tag, cost in cases if tag == 'base' and m in ('exec', 'eval')})
+    red = set()
+    for chunk in (covtexts[i:i + 5000] for i in range(0, len(covtexts), 5000)):
+        for o in C.run_worker(['cov\t' + C.hx(t) for t in chunk]):
+            red.update(o.get('red', []))
+    r.extra['_reduced'] = red
     r.extra['_hashes'] = hashes
     return r
 
@@ -141,15 +334,26 @@ def run(tier, seed):
         shards = K.shards_for(d, start)
         for g in K.group_shards(shards, 400 if tier == 'thorough' else 96):
             jobs.append((g, d, tier, start))
+    jobs += [('lex', LEX_N[tier], sh) for sh in X.prefix_shards(LEX, LEX_N[tier], 1 if tier == 'quick' else 2)]
+    reduced = set()
     for r in C.pmap(run_shard, jobs):
         allh |= r.extra.pop('_hashes')
+        reduced |= r.extra.pop('_reduced', set())
         total.merge(r)
     total.states = len(allh)
     total.nontrivial = len(allh)
+    from .. import gimpl
+    prods = gimpl.productions()
+    missing = sorted(set(prods) - reduced)
+    total.extra['grammar_coverage'] = {'productions_in_python_rs': len(prods), 'productions_reduced_by_the_corpus': len(reduced & set(prods)),
+                                       'not_reduced': ['%d: %s' % (i, prods[i][:100]) for i in missing[:80]]}
     rule = ('E-DERIV over G_ref (%d alternatives, start symbols file and expression): every derivation with at most %d non-default alternatives (transitions = derivations), '
             'each also with every single NAME position replaced by match/case/type/_ and by the identifier exemplars, rendered and parsed in Module + Interactive mode '
             '(Expression mode for the expression start symbol) and without the final newline; states = distinct_nontrivial = distinct (mode, text) pairs that CPython 3.11 accepts '
-            '(those are the judged ones); PEP 695 sentences are accepted/rejected-only here' % (gref.n_alternatives(), d))
+            '(those are the judged ones); PEP 695 sentences (which CPython 3.11 does not know) are judged against the reference obtained by erasure: type-parameter lists removed and '
+            '"type X = v" rewritten to an assignment, parsed by CPython, then re-inserted structurally; plus E-STR: every concatenation (no separators) of <=%d lexemes of a %d-lexeme alphabet '
+            '(names, numbers, strings, operators, keywords, six newline/continuation forms, tab, form feed, comment) that CPython accepts, in Module/Interactive/Expression mode'
+            % (gref.n_alternatives(), d, LEX_N[tier], len(LEX)))
     return C.finish(PROP, tier, seed, t0, total, rule,
                     ['CPython 3.11 ast.parse(bytes) defines validity and the reference tree (interactive mode: the module-mode tree)',
                      'derive(Debug) is faithful; canonicalisers in vp/astcmp.py'], C.py_version())
